@@ -7,9 +7,13 @@ def run(tier, seed):
       'C07', 'other', tier, seed,
       bounded=[('rt_liveness.py', 'run-time evaluation of the visit_node contract on small concrete inputs'),
                ('rt_worklist.py', 'run-time evaluation of the worklist fixed-point contract on small graphs'),
+               ('rt_fndefs.py', 'run-time evaluation of the reaching-function-definitions contracts'),
                ('c07_usebefore.py', 'use-before-overwrite oracle on executed programs')],
       explanation='proved: the liveness transfer function (visit_node) against the equation taken from the property '
                   '(including the nonlocal-closure clause), its refinement of the abstract visit_node contract, and '
-                  'the worklist fixed point of cfg.GraphVisitor for all graphs and all iteration counts; assumed '
+                  'the worklist fixed point of cfg.GraphVisitor for all graphs and all iteration counts; the reaching-function-'
+                  'definitions analysis that feeds the closure clause (its value type, its transfer function: what reaches a node '
+                  'covers everything leaving a predecessor and the external definitions at the entry, a def adds itself; and its '
+                  'refinement lemma); the mirror invariant of the graphs the builder produces (C05) and Scope.finalize (C08); assumed '
                   '(bounded stand-in): CFG path inclusion (C05) and read/modified sets cover actual reads/writes (C08); '
                   'end-to-end soundness exercised by the use-before-overwrite oracle')
